@@ -32,7 +32,8 @@ VALUES = {
     "long": [("max", 2**63 - 1), ("min", -2**63), ("over", 2**63), ("float-integral", 2.0**53), ("float-fractional", 1.5), ("float-neg-fractional", -0.5),
              ("bool", True), ("str", "7"), ("decimal-integral", decimal.Decimal(3)), ("decimal-fractional", decimal.Decimal("3.5")), ("inf", float("inf"))],
     "float": [("half", 0.5), ("tenth", 0.1), ("overflow", 1e39), ("neg-overflow", -1e39), ("inf", float("inf")), ("nan", float("nan")), ("int", 1),
-              ("bool", True), ("str", "0.5"), ("int-not-f32", 2**24 + 1), ("negzero", -0.0), ("subnormal", 1e-45), ("max", 3.4028234663852886e38)],
+              ("bool", True), ("str", "0.5"), ("int-not-f32", 2**24 + 1), ("negzero", -0.0), ("subnormal", 1e-45), ("max", 3.4028234663852886e38),
+              ("near-overflow", 3.4028236e38)],
     "double": [("tenth", 0.1), ("big", 1e308), ("inf", float("inf")), ("nan", float("nan")), ("subnormal", 5e-324), ("int", 1),
                ("int-not-f64", 2**53 + 1), ("bool", True), ("str", "1.5"), ("negzero", -0.0)],
     "string": [("ascii", "a"), ("empty", ""), ("unicode", "naïve ✓ 名"), ("nul", "\x00"), ("int", 5), ("float", 1.5), ("bool", True), ("bytes", b"bytes"),
@@ -266,6 +267,16 @@ def _schema_args(ctx, rep, base, model_rows):
                 if not accepted:
                     if _state(p) != before:
                         rep.violate("C11:rejected-append-left-a-trace", f"schema variant {name}: rejected, yet the table changed", case)
+                    # … and no trace in the HANDLE either: the next valid append through it is exact and scans keep working
+                    try:
+                        h.append_records([{"a": 2, "b": 20, "c": "z"}])
+                        for label, hh in (("same-handle", h), ("fresh-handle", load_table(p))):
+                            got = sorted((r["a"], r["b"], r["c"]) for r in hh.scan())
+                            if got != sorted([(1, 10, "x"), (5, 50, "y"), (2, 20, "z")]):
+                                rep.violate("C11:append-after-rejected-append-not-exact", f"after the rejected variant {name}: {label} scan returns {got}", case)
+                    except Exception as e:      # noqa: BLE001
+                        rep.violate("C11:append-after-rejected-append-breaks-the-table", f"schema variant {name} ({handle} handle, schema_id {sid}) was rejected; "
+                                    f"the next valid append / scan through the same handle raises {type(e).__name__}: {str(e)[:80]}", case)
                     continue
                 expect = sorted([(1, 10, "x"), (5, 50, "y"), (2, 20, "z")])
                 for label, hh in (("same-handle", h), ("fresh-handle", load_table(p))):
@@ -409,6 +420,29 @@ def _prebuilt_files(ctx, rep, base, model_rows):
                 shutil.rmtree(p, ignore_errors=True)
 
 
+def _large_appends(ctx, rep, base):
+    """one append of more rows than the writer's internal batch: every supplied row comes back exactly once"""
+    from datashard import Schema, create_table, load_table
+    fields = [{"id": 1, "name": "k", "type": "long", "required": True}, {"id": 2, "name": "s", "type": "string", "required": False}]
+    for n in (999, 1000, 1001, 2000, 2001, 2500, 4321):
+        p = os.path.join(base, f"big{n}")
+        t = create_table(p, Schema(schema_id=1, fields=fields))
+        rows = [{"k": i, "s": f"r{i}"} for i in range(n)]
+        t.append_records(rows)
+        rep.evaluations += 1
+        rep.nontrivial(["large-append", n])
+        case = {"kind": "large-append", "rows": n}
+        for label, hh in (("same-handle", t), ("fresh-handle", load_table(p))):
+            got = sorted(r["k"] for r in hh.scan())
+            cnt = hh.row_count()
+            if got != list(range(n)) or cnt != n:
+                dup = len(got) - len(set(got))
+                rep.violate("C11:accepted-append-not-exact:large", f"append of {n} rows: {label} scan returns {len(got)} rows ({dup} duplicates, "
+                            f"{n - len(set(got))} missing), row_count {cnt}", case)
+                break
+        shutil.rmtree(p, ignore_errors=True)
+
+
 def run(ctx, model_ok):
     rep = Report()
     rep.rule = ("the whole grid: 11 column types × 4–13 value classes (boundary ints, integral / fractional floats and decimals into integer "
@@ -425,6 +459,7 @@ def run(ctx, model_ok):
         _record_validation(ctx, rep, base, rows)
         _arrow_layer(ctx, rep, base, rows)
         _prebuilt_files(ctx, rep, base, rows)
+        _large_appends(ctx, rep, base)
         rep.exhaustive = True
         if model_ok and rows:
             seen = {}
